@@ -2,13 +2,16 @@
 
 Runtime monitor: drv_ra (ASan+UBSan build of the working tree) generates random and systematically enumerated
 well-defined programs in a small IR, interprets them over unbounded virtual registers (reference), emits the same
-program through x86::Compiler exactly as a user would, JIT-executes it natively (x86-64) in a forked child on 16
-inputs and compares return value, final argument buffer and the logged helper-call sequence.
-
-x86-32 and AArch64 programs are COMPILED ONLY (no 32-bit userland call path, no ARM CPU): the allocator runs under
-ASan/UBSan, finalize must succeed and the emitted code must decode (objdump / llvm-mc). Register-list programs
-(ld1-ld4/st1-st4/tbl/tbx, vp2intersect k-pairs) are checked structurally: the disassembly is executed symbolically
-(register -> token) and the tokens reaching every store must equal the tokens the IR says.
+program through x86::Compiler / a64::Compiler exactly as a user would, EXECUTES the compiled code on 8..16 inputs and
+compares return value, final argument buffer and the logged helper-call sequence:
+  * x86-64 natively (forked child) through an assembly trampoline that also fills every callee-saved register with a
+    sentinel and compares them (and rsp) after the return;
+  * x86-32 natively through a 64->32 far-call gate (code relocated below 4 GiB, helper callees are 32-bit stubs that call
+    back into a 64-bit handler; cdecl / stdcall / fastcall entry, ST0 return values, callee-saved registers and esp checked);
+  * AArch64 on an executor for the encoded instruction words written from the Arm ARM (harness code): helper calls are
+    intercepted per AAPCS64, caller-saved registers are overwritten, x19-x28/x29/sp/d8-d15 must survive.
+The emitted x86-32 / AArch64 bytes must additionally decode (objdump / llvm-mc). Straight-line register-list programs
+(ld1-ld4/st1-st4/tbl/tbx, vp2intersect k-pairs) are also checked structurally by symbolic execution of the disassembly.
 
 Constructs already known to be miscompiled are covered by small directed probes (stable keys x64:probe:*); a failing
 probe makes the random generator avoid that construct so that one defect does not mask the rest, a passing probe
@@ -67,11 +70,11 @@ def make_jobs(tier, seed, scale, avoid, unreachable):
         nx86 = int(3600 * scale)
         f86 = rng.below(1 << 30)
         for i in range(0, nx86, 100):
-            add("x86", f86 + i, min(100, nx86 - i))
-        na64 = int(3000 * scale)
+            add("x86", f86 + i, min(100, nx86 - i), ["--shrink", "100"])
+        na64 = int(4000 * scale)
         fa = rng.below(1 << 30)
         for i in range(0, na64, 100):
-            add("a64", fa + i, min(100, na64 - i))
+            add("a64", fa + i, min(100, na64 - i), ["--shrink", "100"])
         nl = int(3000 * scale)
         fl = rng.below(1 << 30)
         for i in range(0, nl, 75):
@@ -93,11 +96,11 @@ def make_jobs(tier, seed, scale, avoid, unreachable):
         nx86 = int(20000 * scale)
         f86 = rng.below(1 << 30)
         for i in range(0, nx86, 250):
-            add("x86", f86 + i, min(250, nx86 - i))
-        na64 = int(10000 * scale)
+            add("x86", f86 + i, min(250, nx86 - i), ["--shrink", "150"])
+        na64 = int(24000 * scale)
         fa = rng.below(1 << 30)
         for i in range(0, na64, 250):
-            add("a64", fa + i, min(250, na64 - i))
+            add("a64", fa + i, min(250, na64 - i), ["--shrink", "150"])
         nl = int(8000 * scale)
         fl = rng.below(1 << 30)
         for i in range(0, nl, 250):
@@ -555,6 +558,10 @@ def run(tier, args):
     max_live = {}
     decode_stats = {"x86": {}, "a64": {}, "lists": {}}
     harness = []
+    exec_stats = {"x86": {}, "a64": {}}
+    exec_classes = {}
+    unsupported_kinds = {}
+    rewrites = {}
 
     def acc(dst, src):
         for k, v in src.items():
@@ -576,7 +583,7 @@ def run(tier, args):
             what = v["what"]
             if ":ra-crash:" in v["key"] and san:
                 what += " | sanitizer: " + "; ".join(san[:3])
-            rargv = argv if mode == "probe" else ["--mode", mode, "--first", str(v["index"]), "--count", "1"] + argv[6:]
+            rargv = argv if mode == "probe" else ["--mode", mode, "--first", str(v["index"]), "--count", str(v.get("count", 1))] + argv[6:]
             chk.violation(v["key"], what + "\nwitness:\n" + v["witness"][:6000], {"argv": rargv})
         harness += res["harness_errors"]
         arch = "x64" if mode in ("x64", "shapes", "probe") else "x86" if mode == "x86" else "a64" if mode == "a64" else "lists"
@@ -594,6 +601,14 @@ def run(tier, args):
         distinct[arch].update(res["distinct_nontrivial"])
         distinct_all += res["distinct_all"]
         shapes.update(res["cfg_shapes"])
+        acc(rewrites, res.get("inst_id_rewrites", {}))
+        ex = res.get("exec")
+        if ex and arch in exec_stats:
+            for k in ("programs", "inputs", "unsupported", "steps", "annotated"):
+                exec_stats[arch][k] = exec_stats[arch].get(k, 0) + ex[k]
+            if arch == "a64":
+                acc(exec_classes, ex["classes"])
+                acc(unsupported_kinds, ex["unsupported_kinds"])
         comp = res.get("compiled", [])
         if mode == "x86":
             viol, st = check_x86_decode(comp, 32)
@@ -621,42 +636,101 @@ def run(tier, args):
     if harness:
         raise common.HarnessError("generated program not well-defined / harness trouble: %s (%d)" % (harness[0], len(harness)))
 
+    ops = maps.get("ops_by_kind", {})
+    terms = maps.get("term_by_kind", {})
+    nx64 = per_mode.get("x64", {}).get("programs", 0)
+    nx86 = per_mode.get("x86", {}).get("programs", 0)
+    na64 = per_mode.get("a64", {}).get("programs", 0)
+
+    # ---- every dimension the check claims must have been OBSERVED in this run, otherwise the run is inconclusive
+    if not args.replay:
+        missing = []
+
+        def need(cond, what):
+            if not cond:
+                missing.append(what)
+
+        for arch, n, label in (("x86", nx86, "x86-32"), ("a64", na64, "AArch64")):
+            if n:
+                ex = exec_stats[arch]
+                need(ex.get("programs", 0) > 0, "%s programs executed" % label)
+                need(ex.get("unsupported", 0) * 50 <= n, "%s executor coverage (%d of %d programs hit an instruction outside the executor's subset: %s)"
+                     % (label, ex.get("unsupported", 0), n, sorted(unsupported_kinds)[:4]))
+                need(ex.get("annotated", 0) not in (0, n) or n < 20, "%s programs with and without kRAAnnotate" % label)
+        if nx64 >= 3000:
+            for k in ("blendv", "mulx", "str", "str-with-rep-prefix", "cx16", "lahf", "sahf", "maskmov", "vround", "call-target-in-register", "call-target-in-memory",
+                      "call-ms_abi-callee", "call-variadic-callee", "call-vector-argument", "call-vector-return", "call-float32-argument",
+                      "call-stack-argument-zero-extended-from-narrower-register", "call-stack-argument-sign-extended-from-narrower-register",
+                      "compiled-with-kRAAnnotate", "compiled-without-kRAAnnotate", "compiled-with-kRADebugAll-and-logger",
+                      "functions-compiled-in-a-multi-function-Compiler", "functions-sharing-virtual-registers-with-earlier-functions"):
+                need(ops.get(k, 0) > 0, "x86-64 dimension '%s'" % k)
+            for k in ("br-jecxz", "dec-loop-instruction"):
+                need(terms.get(k, 0) > 0, "x86 terminator '%s'" % k)
+            if any(k.startswith("vmovdq") for k in rewrites):   # AVX-512 host: registers 16..31 are in play
+                for k in ("vround", "vextractf128", "vinsertf128"):
+                    need(any(r.startswith(k) for r in rewrites), "VEX->EVEX rewrite of %s*" % k)
+        if na64 >= 1000:
+            for k in ("ald", "ast", "atbl", "aidx", "amule"):
+                need(ops.get(k, 0) > 0, "AArch64 op '%s'" % k)
+            for k in ("br-cbz/cbnz", "br-tbz/tbnz"):
+                need(terms.get(k, 0) > 0, "AArch64 terminator '%s'" % k)
+            for k in ("helper-call", "ldr-post", "ldr-pre", "str-post", "str-pre", "cbz/cbnz", "tbz/tbnz", "mul-by-element"):
+                need(exec_classes.get(k, 0) > 0, "AArch64 executor class '%s'" % k)
+            need(any(k.startswith("ld") and "lane" in k for k in exec_classes), "AArch64 lane loads executed")
+            need(any(re.match(r"^ld[1-4]r", k) for k in exec_classes), "AArch64 replicating loads executed")
+            need(any(k.startswith("tbl-") for k in exec_classes) and any(k.startswith("tbx-") for k in exec_classes), "AArch64 tbl/tbx executed")
+        if missing:
+            raise common.HarnessError("dimension(s) not observed in this run: " + "; ".join(missing[:6]) + (" (+%d more)" % (len(missing) - 6) if len(missing) > 6 else ""))
+
     nshapes = shape_count()
+    call_dims = {k: v for k, v in ops.items() if k.startswith("call-")}
     chk.coverage.update({
         "evaluations": tot.get("evaluations", 0),
         "distinct_nontrivial": len(distinct["x64"]),
-        "rule": "one evaluation = one generated program compiled by the Compiler; x86-64 programs are additionally executed natively on 16 inputs "
-                "(6 boundary + 10 random) and compared with the reference interpreter (return value, whole argument buffer incl. the final value "
-                "of every dumped virtual register, helper-call log). distinct = hash of the serialised IR; non-trivial = the compiled code of the "
-                "x86-64 program contains >= 1 RA-inserted reload/spill-save/move/swap (RA annotations) or a register->memory operand substitution "
-                "(operand kind of a user instruction changed from Reg to Mem). Compile-only architectures are counted separately below.",
+        "rule": "one evaluation = one generated program compiled by the Compiler and EXECUTED: x86-64 natively on 16 inputs (6 boundary + 10 random), x86-32 "
+                "through the far-call gate on 16 inputs, AArch64 on the instruction-word executor on 8 inputs; every run is compared with the reference "
+                "interpreter (return value, whole argument buffer incl. the final value of every dumped virtual register, helper-call log) and the "
+                "callee-saved registers are compared with sentinels. distinct = hash of the serialised IR; non-trivial = the compiled code of the x86-64 "
+                "program contains >= 1 RA-inserted reload/spill-save/move/swap (RA annotations, programs with an odd index only - the others are compiled "
+                "without kRAAnnotate like a default user) or a register->memory operand substitution (operand kind of a user instruction changed "
+                "from Reg to Mem). The other targets are counted separately below.",
         "samples": samples,
         "x64_programs_executed": per_mode.get("x64", {}).get("programs", 0) + per_mode.get("shapes", {}).get("programs", 0),
-        "x64_inputs_run": tot.get("inputs_run", 0),
+        "x64_inputs_run": per_mode.get("x64", {}).get("inputs_run", 0) + per_mode.get("shapes", {}).get("inputs_run", 0),
+        "x64_callee_saved_sentinel_checks": per_mode.get("x64", {}).get("inputs_run", 0) + per_mode.get("shapes", {}).get("inputs_run", 0),
         "x64_dynamic_ir_ops_interpreted": tot.get("dyn_ops", 0),
         "x64_helper_calls_compared": tot.get("calls_logged", 0),
+        "x64_call_lowering_dimensions": call_dims,
+        "x64_fixed_register_classes": {k: ops.get(k, 0) for k in ("shc", "mul1", "div", "cmpxchg", "blendv", "mulx", "str", "str-with-rep-prefix", "cx16", "lahf", "sahf",
+                                                                    "maskmov", "vgather")},
+        "x64_compile_configurations": {k: v for k, v in ops.items() if k.startswith("compiled-") or "function" in k or "inconclusive" in k},
+        "x64_instruction_id_rewrites_(vex->evex etc.)": rewrites,
         "systematic_cfg_shapes_total": nshapes,
         "systematic_cfg_shape_programs_run": per_mode.get("shapes", {}).get("programs", 0),
         "distinct_cfg_shapes_seen": len(shapes),
         "cfg_kinds": maps.get("cfg_kinds", {}),
-        "terminators_by_kind": maps.get("term_by_kind", {}),
+        "terminators_by_kind": terms,
         "max_simultaneously_live_values": max_live,
         "programs_by_max_live_bucket_(<8,<17,<33,<65,<129,>=129)": maps.get("live_hist", []),
         "ra_actions_observed": {"reloads": tot.get("loads", 0), "spill_saves": tot.get("saves", 0), "moves": tot.get("moves", 0),
                                 "swaps": tot.get("swaps", 0), "reg_to_mem_substitutions": tot.get("rm_subst", 0),
                                 "user_instructions": tot.get("user_insts", 0)},
         "per_mode": per_mode,
-        "compile_only": {
-            "x86_32": {"programs": per_mode.get("x86", {}).get("programs", 0), "distinct_nontrivial": len(distinct["x86"]),
-                       "finalize_errors": per_mode.get("x86", {}).get("compile_errors", 0), "decode": decode_stats["x86"], "executed": False},
-            "aarch64": {"programs": per_mode.get("a64", {}).get("programs", 0), "distinct_nontrivial": len(distinct["a64"]),
-                        "finalize_errors": per_mode.get("a64", {}).get("compile_errors", 0), "decode": decode_stats["a64"], "executed": False},
-            "register_lists": {"a64_programs": per_mode.get("a64lists", {}).get("programs", 0),
-                               "x64_vp2intersect_programs": per_mode.get("x86lists", {}).get("programs", 0),
-                               "compile_failures_or_crashes": per_mode.get("a64lists", {}).get("compile_errors", 0) + per_mode.get("x86lists", {}).get("compile_errors", 0),
-                               "symbolic_check": decode_stats["lists"], "executed": False},
+        "other_targets": {
+            "x86_32": {"programs": nx86, "distinct_nontrivial": len(distinct["x86"]), "finalize_errors": per_mode.get("x86", {}).get("compile_errors", 0),
+                       "decode": decode_stats["x86"], "executed": True, "executed_programs": exec_stats["x86"].get("programs", 0),
+                       "executed_inputs": exec_stats["x86"].get("inputs", 0), "compiled_with_kRAAnnotate": exec_stats["x86"].get("annotated", 0)},
+            "aarch64": {"programs": na64, "distinct_nontrivial": len(distinct["a64"]), "finalize_errors": per_mode.get("a64", {}).get("compile_errors", 0),
+                        "decode": decode_stats["a64"], "executed": True, "executed_programs": exec_stats["a64"].get("programs", 0),
+                        "executed_inputs": exec_stats["a64"].get("inputs", 0), "executor_instructions_run": exec_stats["a64"].get("steps", 0),
+                        "executor_unsupported_programs": exec_stats["a64"].get("unsupported", 0), "executor_instruction_classes": exec_classes,
+                        "compiled_with_kRAAnnotate": exec_stats["a64"].get("annotated", 0)},
+            "register_lists_symbolic": {"a64_programs": per_mode.get("a64lists", {}).get("programs", 0),
+                                        "x64_vp2intersect_programs": per_mode.get("x86lists", {}).get("programs", 0),
+                                        "compile_failures_or_crashes": per_mode.get("a64lists", {}).get("compile_errors", 0) + per_mode.get("x86lists", {}).get("compile_errors", 0),
+                                        "symbolic_check": decode_stats["lists"], "executed": False},
         },
-        "ops_by_kind": maps.get("ops_by_kind", {}),
+        "ops_by_kind": ops,
         "programs_by_profile": maps.get("by_profile", {}),
         "probes_failed": sorted(probe_results),
         "generator_avoid_mask": avoid,
@@ -666,14 +740,37 @@ def run(tier, args):
     })
     chk.assumptions += [
         "ASan/UBSan build of /repo's working tree; JIT-executed code itself is not instrumented. Each compiled x86-64 function runs in a forked child "
-        "(guard pages around the argument buffer, CPU-time limit): a crash or hang of generated code is a violation, a wall-clock watchdog is inconclusive",
-        "x86-32 and AArch64 semantics are NOT executed (no 32-bit call path, no ARM CPU): for them the check only establishes that the allocator runs "
-        "clean under the sanitizers, finalize succeeds and the code decodes (objdump / llvm-mc); register-list programs (ld1-4/st1-4/tbl/tbx, "
-        "vp2intersect) are validated by symbolic execution of the disassembly of straight-line programs only",
-        "the reference interpreter is harness code written from the Intel SDM; it tracks definedness per byte and refuses (harness error) any program "
-        "that reads undefined bytes, so only well-defined programs are judged. Helper callees overwrite every caller-saved GP/vector/mask register",
-        "constructs whose probe fails are avoided by the random generator (mask above) - they are reported once under x64:probe:* instead of polluting "
-        "every random program; a passing probe re-enables the construct",
+        "(guard pages around the argument buffer, CPU-time limit): a crash or hang of generated code is a violation, a wall-clock watchdog is inconclusive. "
+        "x86-32 and AArch64 programs are compiled AND executed in one forked child per program",
+        "x86-32 execution: the code is relocated to 0x08010000 and entered through a far return into the 32-bit code segment; helper callees are 32-bit stubs "
+        "(cdecl, odd ids stdcall with ret n) that far-call a 64-bit handler, so arguments are read from the real 32-bit stack and results come back in "
+        "eax / edx:eax / ST0. Values that travel through ST0 are compared modulo x87 NaN quieting. AArch64 execution: an executor for ~60 instruction "
+        "classes written from the Arm ARM interprets the ENCODED words (prolog, spill code, call lowering, epilog included); an instruction outside the "
+        "subset makes that program inconclusive (counted; more than 2% of them makes the whole run inconclusive). Both are harness code: a disagreement "
+        "with the reference interpreter on the unchanged tree is triaged before it is reported",
+        "the reference interpreter is harness code written from the Intel SDM / Arm ARM; it tracks definedness per byte and refuses (harness error) any program "
+        "that reads undefined bytes, so only well-defined programs are judged. Helper callees overwrite every caller-saved GP/vector/mask register "
+        "(AArch64: x0-x17, v0-v7, v16-v31, the upper halves of v8-v15, NZCV; x86-32: eax, ecx, edx, xmm/ymm/zmm0-7, k0-7). vround* is judged against the host "
+        "instruction with the same immediate",
+        "constructs whose probe fails are avoided by the random generator (mask above) - they are reported once under <arch>:probe:* instead of polluting "
+        "every random program; a passing probe re-enables the construct. For the AArch64 x30 defect the generator does not drop calls under pressure, it "
+        "makes x30 unavailable through FuncFrame::add_unavailable_regs",
+        "call lowering (x86-64): the call target is an immediate, a virtual register or a memory operand (table of helper addresses behind the argument buffer); "
+        "callees: 34 SysV signatures with 0..14 integer and 0..12 double arguments, 6 ms_abi (Win64) functions incl. vectors passed by reference, SysV and "
+        "Win64 variadic functions read with va_arg, functions with __m128i arguments / result (9th vector on the stack), signed stack parameters; a "
+        "stack-passed integer argument is taken from a virtual register of ANY width (narrower ones are zero / sign extended by the lowering; the "
+        "expected extension follows AsmJit's own rule: sign extension only when parameter and register are both signed); register-passed arguments are "
+        "only given registers at least as wide as the parameter because AsmJit assigns them unconverted; float parameters (SysV and Win64, register and stack positions) take the low 32 bits of a scalar register (AsmJit stores them with movss, no conversion)",
+        "fixed / implicit registers: shift by CL, mul/div, cwd, cmpxchg, cmpxchg8b/16b (four fixed registers + memory), mulx (implicit edx), pblendvb / "
+        "blendvps / blendvpd (implicit xmm0), [rep] stos / movs / lods (fixed edi / esi bases given as memory operands, eax, rep count in ecx; the advanced "
+        "pointer and the final count are observed), [v]maskmovdqu (implicit edi base), lahf / sahf (AH), jecxz and loop terminators (their +-127 byte "
+        "range is kept by a jmp right behind them; a finalize error InvalidDisplacement of such a program is counted as inconclusive, not as a "
+        "violation). AArch64: cbz/cbnz/tbz/tbnz terminators, pre/post-index ldr/str whose written-back pointer is observed, ld1-ld4/st1-st4 in the "
+        "multi-structure, multi-register, replicate and single-lane forms with post-index (immediate and register), tbl/tbx with 1..4 table registers, "
+        "mul by element (half-word elements restrict the register to v0..v15) - all inside arbitrary CFGs with calls, and executed",
+        "every second program is compiled WITHOUT kRAAnnotate (the default user configuration), one in 16 with kRADebugAll into a logger; half of the x86-64 "
+        "programs are built three at a time as consecutive functions of ONE Compiler (one finalize), every second group reusing the virtual registers of "
+        "the earlier functions; a failure that only appears in a group is reported under x64:<kind>:multi-function:<profile> and replays the group",
         "mutation self-test on scratch copies (quick tier, 2026-09-27): (1) x86rapass.cpp on_invoke forgets that r10 is clobbered, (2) ralocal.cpp "
         "switch_to_assignment drops the move into physical register 6, (3) x86rapass.cpp treats a write-only same-register idiom (xor r,r) as read-only, "
         "(4) x86emithelper.cpp spills 64-bit mask registers with kmovd - all four detected as new x64:miscompile:<profile> / x64:crash:<profile> keys; "
@@ -682,28 +779,29 @@ def run(tier, args):
         "or-mem-all-ones, c996df8 reg-to-mem-32bit-rmw, 7d1fabd reg-to-mem-high-byte, b6ac079 reg-to-mem-kmovw, 7106f2f vector-argument-avx512, 9b5029b "
         "unreachable-predecessor, c1e90ec a64-tbl-register-list, d818bc6 vpternlog-merge-masked, 7a2ee99 same-reg-hint-different-views, 7a2ee99+86fe1c1 "
         "same-reg-idiom-narrow(+vector); with d818bc6 or 7a2ee99 reverted the random generator alone also alarms (avx512/mixed resp. partial profile)",
-        "helper callees: 34 fixed signatures with 0..14 integer and 0..12 double arguments (up to 96 bytes of stack arguments), called in random order "
-        "inside one function (profiles calls, calls512, calls-stack: big call before small call and the reverse, spill slots and new_stack() memory live "
-        "across the calls); probe call-stack-area-max-over-invokes = big call then small call. Seeded change C07-3 (set_call_stack_size instead of "
-        "update_call_stack_size in on_before_invoke) is caught by that probe and by x64:miscompile/crash/hang keys of every profile with calls",
+        "helper callees: called in random order inside one function (profiles calls, calls512, calls-stack: big call before small call and the reverse, "
+        "spill slots and new_stack() memory live across the calls); probe call-stack-area-max-over-invokes = big call then small call. Seeded change C07-3 "
+        "(set_call_stack_size instead of update_call_stack_size in on_before_invoke) is caught by that probe and by x64:miscompile/crash/hang keys of every "
+        "profile with calls",
         "about one third of the integer helper-call arguments (register and stack positions, u8..u64) and of the stack-passed double arguments are "
         "passed as immediates (InvokeNode::set_arg(i, Imm)) drawn from boundary values (0, +-1, 0x7F/0x80/0xFF, 0x7FFF/0x8000/0xFFFF, 0x7FFFFFFF, "
-        "0x80000000, 0xFFFFFFFF, 2^32, INT64 min/max, -0x80000000, -0x80000001, random 32/64-bit); probe immediate-stack-argument rotates them through "
-        "every position of the 14-integer and 14+12 callees. Seeded change C05-3 (is_uint32 instead of is_int32 in move_imm_to_stack_arg) is caught by "
-        "the probe and by x64:miscompile keys of every profile; f32 arguments and immediates for register-passed doubles (refused by AsmJit) are not generated",
+        "0x80000000, 0xFFFFFFFF, 2^32, INT64 min/max, -0x80000000, -0x80000001, random 32/64-bit); on x86-32 a 64-bit immediate is given as the two "
+        "halves of the argument's value pack; probe immediate-stack-argument rotates them through every position of the 14-integer and 14+12 callees. "
+        "Seeded change C05-3 (is_uint32 instead of is_int32 in move_imm_to_stack_arg) is caught by the probe and by x64:miscompile keys of every profile",
         "generated functions take up to 31 parameters after the buffer pointer (6 fixed signatures, the largest 14 integer + 17 double, so that 9+9 "
-        "parameters arrive on the stack; Globals::kMaxFuncArgs = 32); double parameters are bound to 64-bit and to wider 128-bit virtual registers, "
-        "frames with and without preserved FP, 32/64-byte spill slots; every bound parameter is dumped. A share of programs embeds data inside the "
-        "function (after the final ret, after early rets, behind unconditional / annotated jumps; jump tables inside the function): falling into it "
-        "traps on x86-64, and for the compile-only targets the instruction before every embedded data block must be jmp/ret (b/br/ret). Seeded "
-        "changes C05-5 (is_next_to ignores data nodes) and C07-5 (_update_stack_args before adjust_slot_offsets) are caught by their probes and by "
-        "random programs of most profiles; bt/bts/btr/btc with register index and vpgatherdd zmm{k} are generated (probes bt-register-base-spilled, "
-        "gather-mask-written)",
+        "parameters arrive on the stack; Globals::kMaxFuncArgs = 32; AArch64: the 32/64-bit ones, x86-32: cdecl / stdcall / fastcall); double parameters "
+        "are bound to 64-bit and to wider 128-bit virtual registers, frames with and without preserved FP, 32/64-byte spill slots; every bound parameter "
+        "is dumped. A share of programs embeds data inside the function (after the final ret, after early rets, behind unconditional / annotated jumps; "
+        "jump tables inside the function): falling into it traps (x86: ud2, AArch64 executor: udf), and the instruction before every embedded data block "
+        "must be jmp/ret (b/br/ret). Seeded changes C05-5 (is_next_to ignores data nodes) and C07-5 (_update_stack_args before adjust_slot_offsets) are "
+        "caught by their probes and by random programs of most profiles; bt/bts/btr/btc with register index and vpgatherdd zmm{k} are generated (probes "
+        "bt-register-base-spilled, gather-mask-written)",
         "integer parameters are always passed by the harness as full 64-bit values, so the bits above an 8/16/32-bit parameter are junk in registers "
         "and in stack slots (legal per ABI); a signature with 20 narrow parameters (u8/i8/u16/i16/u32/i32) exists and parameters are bound to equal "
         "and to wider virtual registers (unsigned -> zero extension, signed parameter + signed register -> sign extension, AsmJit's own cast table); "
         "probe narrow-stack-parameter-bound-to-wide-vreg",
-        "not generated: calling conventions other than SysV/cdecl for helper calls (x86-32: cdecl/stdcall/fastcall function signatures are compiled only), "
-        "MMX/x87 registers, ms_abi callees, string instructions with REP",
+        "not generated: MMX/x87 registers as virtual registers, f32 results, vzeroupper, pcmpistri / sha256rnds2 (their xmm0 / ecx classes are covered by "
+        "blendv / mulx), AArch64 narrower-than-parameter argument registers (AsmJit stores them unconverted), Win64 / vectorcall as the convention of the "
+        "generated function itself",
     ]
     return chk.finish()
